@@ -1,7 +1,7 @@
 /-
-The `process_data` loops of `lib/xfrm/src/{gzip,xz,bzip2,zstd}.c` **as they are in the tree without
-`fixes/C15-xfrm-flush-eof.patch`** (defect D14).  Used by `Sqfs/Witness/C15.lean` and by the check to classify
-what the unpatched code does.  `istream.c` / `ostream.c` are the same in both trees (`Sqfs/Model/Xfrm.lean`).
+The `process_data` loops of `lib/xfrm/src/{gzip,xz,bzip2,zstd}.c` **as they were before fix commits `8eb5186` / `7b3a56e`**
+(defect D14, gzip data-error spin).  Used by `Sqfs/Witness/C15.lean` and by the check to say, in the message of a violation,
+that a tree behaves like the old loops again.  `istream.c` / `ostream.c` are the same in both (`Sqfs/Model/Xfrm.lean`).
 -/
 import Sqfs.Model.Xfrm
 namespace Sqfs.Xfrm.Old
